@@ -130,6 +130,34 @@ for ename, enabled in enabled_values().items():
             "same": dec is inner, "vars_unchanged": sizes_after == sizes_before and set(vars(inner)) == keys_before,
             "ok": run_call(dec, 1), "bad": run_call(dec, -1)}
 
+    # ---- a decorator applied to a staticmethod OBJECT (written above @staticmethod, or called by hand on the descriptor): when it is
+    # disabled, the very object comes back
+    def f_static(x):
+        probe("body", None)
+        return x
+
+    raw_static = staticmethod(f_static)
+    dec = icontract.require(pre_pos, **kw(enabled))(raw_static)
+
+    class HoldsStatic:
+        m = dec
+
+    REPORT["items"]["require/descriptor/" + ename] = {
+        "same": dec is raw_static, "vars_unchanged": True, "ok": run_call(lambda: HoldsStatic.m(1)), "bad": run_call(lambda: HoldsStatic.m(-1))}
+
+    def f_static2(x):
+        probe("body", None)
+        return x
+
+    raw_static2 = staticmethod(f_static2)
+    dec = icontract.ensure(post_pos, **kw(enabled))(raw_static2)
+
+    class HoldsStatic2:
+        m = dec
+
+    REPORT["items"]["ensure/descriptor/" + ename] = {
+        "same": dec is raw_static2, "vars_unchanged": True, "ok": run_call(lambda: HoldsStatic2.m(1)), "bad": run_call(lambda: HoldsStatic2.m(-1))}
+
     # ---- async function
     async def f_async(x):
         probe("body", None)
